@@ -51,7 +51,7 @@ func genDescC19(t *rapid.T, label string, like *DescC19) DescC19 {
 	}
 	d.Event = uint32(rapid.IntRange(1, 3).Draw(t, label+"-event"))
 	d.HasPTS = rapid.IntRange(0, 5).Draw(t, label+"-haspts") != 0
-	d.PTS = uint64(rapid.SampledFrom([]int{1000, 2000, 1<<33 - 1}).Draw(t, label+"-pts"))
+	d.PTS = rapid.SampledFrom([]uint64{1000, 2000, 1<<33 - 1}).Draw(t, label+"-pts")
 	d.Num = byte(rapid.IntRange(0, 2).Draw(t, label+"-num"))
 	d.Exp = byte(rapid.IntRange(0, 2).Draw(t, label+"-exp"))
 	if d.Type == 0x34 || d.Type == 0x36 {
